@@ -803,6 +803,33 @@ func (il *inliner) collectStmt(f *ilFile, s ast.Stmt, ret *retCtx, tail bool) []
 				return mk(il.expand(f, call, h, kReturn, "", "", ret, endLine))
 			}
 		}
+		if ret == nil && len(x.Results) > 0 {
+			// helper calls nested in the results of a real return: hoisted in front of it
+			var sites []*ast.CallExpr
+			okAll := true
+			for _, e := range x.Results {
+				ss := il.nestedSites(f, e)
+				if ss == nil {
+					hasCall := false
+					ast.Inspect(e, func(k ast.Node) bool {
+						switch k.(type) {
+						case *ast.CallExpr, *ast.FuncLit:
+							hasCall = true
+						}
+						return true
+					})
+					if hasCall {
+						okAll = false
+					}
+				}
+				sites = append(sites, ss...)
+			}
+			if okAll && len(sites) > 0 {
+				if t := il.hoist(f, s.Pos(), s.End(), sites, ret, endLine); t != "" {
+					return mk("{ " + t + " }")
+				}
+			}
+		}
 		if ret != nil {
 			vals := ""
 			if len(x.Results) > 0 {
@@ -977,7 +1004,7 @@ func buildOverlay(dir, root string, newKeys map[string]bool, patterns ...string)
 		}
 	}
 	// candidate helpers
-	var names []string
+	var names, forcedNames []string
 	for af, f := range il.files {
 		rel, _ := filepath.Rel(root, filepath.Dir(f.name))
 		for _, d := range af.Decls {
@@ -995,7 +1022,17 @@ func buildOverlay(dir, root string, newKeys map[string]bool, patterns ...string)
 				continue
 			}
 			il.helpers[fn] = &ilHelper{fn: fn, decl: fd, f: f, tailOnly: tailOnly}
-			names = append(names, fn.FullName())
+			forced := false
+			for _, fk := range forcedHelpers {
+				if fk == funcKey(filepath.ToSlash(rel), fd) {
+					forced = true
+				}
+			}
+			if forced {
+				forcedNames = append(forcedNames, fn.FullName())
+			} else {
+				names = append(names, fn.FullName())
+			}
 		}
 	}
 	if len(il.helpers) == 0 && !anyLits {
@@ -1055,6 +1092,10 @@ func buildOverlay(dir, root string, newKeys map[string]bool, patterns ...string)
 	}
 	sort.Strings(names)
 	if len(overlay) > 0 {
+		sort.Strings(forcedNames)
+		if len(forcedNames) > 0 {
+			il.notes = append(il.notes, "canonical in-line form: the calls of "+strings.Join(forcedNames, ", ")+" are analysed expanded into their callers (inline.go, forcedHelpers)")
+		}
 		what := strings.Join(names, ", ")
 		if anyLits {
 			if what != "" {
@@ -1062,7 +1103,9 @@ func buildOverlay(dir, root string, newKeys map[string]bool, patterns ...string)
 			}
 			what += "directly called function literals in functions that gained literals since the pinned tree"
 		}
-		il.notes = append(il.notes, fmt.Sprintf("helper normalisation: %d call site(s) of %d new function(s) / local closures expanded in place before analysis: %s", il.sites, len(names), what))
+		if what != "" {
+			il.notes = append(il.notes, fmt.Sprintf("helper normalisation: calls of functions that are not in the pinned tree / of local closures expanded in place before analysis: %s", what))
+		}
 	}
 	return overlay, il.notes
 }
